@@ -73,7 +73,7 @@ func CopyHeaders(proxyReq, originalReq *http.Request) {
 
 	// Via header tracks the request path through proxies (RFC 7230 section 5.7.1)
 	// we append to existing via headers to maintain the proxy chain
-	if via := originalReq.Header.Get(constants.HeaderVia); via != "" {
+	if via := existingHeader(originalReq.Header, constants.HeaderVia); via != "" {
 		proxyReq.Header.Set(constants.HeaderVia, via+", "+GetViaHeader())
 	} else {
 		proxyReq.Header.Set(constants.HeaderVia, GetViaHeader())
@@ -81,7 +81,7 @@ func CopyHeaders(proxyReq, originalReq *http.Request) {
 
 	// SHERPA-44: Ensure X-Real-IP header is set
 	// Add real IP tracking headers
-	if realIP := originalReq.Header.Get(constants.HeaderXRealIP); realIP == "" {
+	if realIP := existingHeader(originalReq.Header, constants.HeaderXRealIP); realIP == "" {
 		if ip := extractClientIP(originalReq); ip != "" {
 			proxyReq.Header.Set(constants.HeaderXRealIP, ip)
 		}
@@ -95,7 +95,7 @@ func CopyHeaders(proxyReq, originalReq *http.Request) {
 // updateForwardedHeaders updates X-Forwarded-* headers
 func updateForwardedHeaders(proxyReq, originalReq *http.Request) {
 	// X-Forwarded-For
-	if forwarded := originalReq.Header.Get(constants.HeaderXForwardedFor); forwarded != "" {
+	if forwarded := existingHeader(originalReq.Header, constants.HeaderXForwardedFor); forwarded != "" {
 		if clientIP := extractClientIP(originalReq); clientIP != "" {
 			proxyReq.Header.Set(constants.HeaderXForwardedFor, forwarded+", "+clientIP)
 		} else {
@@ -106,7 +106,7 @@ func updateForwardedHeaders(proxyReq, originalReq *http.Request) {
 	}
 
 	// X-Forwarded-Proto
-	if proto := originalReq.Header.Get(constants.HeaderXForwardedProto); proto == "" {
+	if proto := existingHeader(originalReq.Header, constants.HeaderXForwardedProto); proto == "" {
 		if originalReq.TLS != nil {
 			proxyReq.Header.Set(constants.HeaderXForwardedProto, constants.ProtocolHTTPS)
 		} else {
@@ -115,9 +115,26 @@ func updateForwardedHeaders(proxyReq, originalReq *http.Request) {
 	}
 
 	// X-Forwarded-Host
-	if host := originalReq.Header.Get(constants.HeaderXForwardedHost); host == "" && originalReq.Host != "" {
+	if host := existingHeader(originalReq.Header, constants.HeaderXForwardedHost); host == "" && originalReq.Host != "" {
 		proxyReq.Header.Set(constants.HeaderXForwardedHost, originalReq.Host)
 	}
+}
+
+// existingHeader returns everything a (possibly repeated) header already carries:
+// a header sent on several lines is equivalent to one line with the values joined
+// by ", " (RFC 7230 section 3.2.2), so no line is lost when we append to it.
+func existingHeader(h http.Header, name string) string {
+	values := h.Values(name)
+	if len(values) <= 1 {
+		return h.Get(name)
+	}
+	nonEmpty := make([]string, 0, len(values))
+	for _, v := range values {
+		if v != "" {
+			nonEmpty = append(nonEmpty, v)
+		}
+	}
+	return strings.Join(nonEmpty, ", ")
 }
 
 var hopByHopHeaders = []string{
@@ -141,7 +158,7 @@ func isHopByHopHeader(header string) bool {
 // extractClientIP extracts the client IP address from the request
 func extractClientIP(r *http.Request) string {
 	// Check X-Forwarded-For header
-	if xff := r.Header.Get(constants.HeaderXForwardedFor); xff != "" {
+	if xff := existingHeader(r.Header, constants.HeaderXForwardedFor); xff != "" {
 		// Take the first IP in the comma-separated list
 		if idx := strings.Index(xff, ","); idx != -1 {
 			return strings.TrimSpace(xff[:idx])
@@ -151,7 +168,7 @@ func extractClientIP(r *http.Request) string {
 
 	// SHERPA-89: Check X-Forwarded-Host header is set
 	// Check X-Real-IP header
-	if xri := r.Header.Get(constants.HeaderXRealIP); xri != "" {
+	if xri := existingHeader(r.Header, constants.HeaderXRealIP); xri != "" {
 		return strings.TrimSpace(xri)
 	}
 
